@@ -179,8 +179,13 @@ pub fn corpus(report: &mut Report) {
     }
 }
 
-pub fn check(tier: Tier, seed: u64) -> i32 {
-    let mut rep = Report::new(PROP, tier, seed);
+pub struct Ctx {
+    pub pools: Pools,
+    pub runs: u64,
+    pub per_run: usize,
+}
+
+pub fn context(tier: Tier, seed: u64) -> Result<Ctx, String> {
     let w = report::workers();
     let (runs, per_run, k512, k1024) = match tier {
         Tier::Quick => (400u64, 1500usize, 12, 4),
@@ -188,11 +193,28 @@ pub fn check(tier: Tier, seed: u64) -> i32 {
     };
     let pools = Pools::build(report::run_seed(seed, "pool", 0), k512, k1024, 6, w);
     if !pools.usable() {
-        eprintln!("HARNESS-ERROR: key pool could not be built on the current tree");
-        return 2;
+        return Err("key pool could not be built on the current tree".into());
     }
+    Ok(Ctx { pools, runs, per_run })
+}
+
+pub fn rerun(tier: Tier, seed: u64, run: u64) -> Option<RunOutcome> {
+    let ctx = context(tier, seed).ok()?;
+    Some(one_run(seed, run, &ctx.pools, ctx.per_run))
+}
+
+pub fn check(tier: Tier, seed: u64) -> i32 {
+    let mut rep = Report::new(PROP, tier, seed);
+    let w = report::workers();
+    let ctx = match context(tier, seed) {
+        Ok(c) => c,
+        Err(e) => {
+            eprintln!("HARNESS-ERROR: {}", e);
+            return 2;
+        }
+    };
     corpus(&mut rep);
-    let out = report::parallel_runs(runs, w, |run| one_run(seed, run, &pools, per_run));
+    let out = report::parallel_runs(ctx.runs, w, |run| one_run(seed, run, &ctx.pools, ctx.per_run));
     rep.absorb(out);
     rep.rule = "a case is one byte string delivered to PublicKey/SecretKey/Signature::from_bytes of either variant, produced by the seeded channel/disk fault catalogue (bit flips incl. header bits, overwrites, truncation/extension, splices, torn writes, misdelivery across variants and object types) or the Byzantine key encoder Z3 from pristine encodings; non-trivial = right length and header for the receiving decoder, so that the verdict is decided at field level; distinct = distinct delivered bytes".into();
     rep.assumptions = vec![
